@@ -95,6 +95,18 @@ var c17Degenerate = []struct {
 	{"NewCircle(steps=-1,r=-1)", "Feature", 0, func() geojson.Object { return geojson.NewCircle(geometry.Point{X: 1, Y: 2}, -1, -1) }},
 }
 
+func init() {
+	// hand-assembled geometry values handed to the constructors
+	for _, h := range handAssembled() {
+		c17Degenerate = append(c17Degenerate, struct {
+			name  string
+			typ   string
+			depth int
+			o     func() geojson.Object
+		}{h.name, h.typ, h.depth, h.o})
+	}
+}
+
 func coordDepthOK(v *refdoc.JV, d int) bool {
 	if v == nil || v.Kind != 'a' {
 		return false
@@ -325,6 +337,7 @@ func runC17(r *rt.Run) {
 	seeds := append(append(docgen.Seeds(), floatSeeds()...), invalidSeeds()...)
 	seeds = append(seeds, docgen.LargeDocs()...) // buffer growth with thousands of positions / hundreds of children
 	seeds = append(seeds, docgen.MemberDocs()...)
+	seeds = append(seeds, docgen.NestedKeyDocs()...)
 	seeds = append(seeds, docgen.StringDocs()...) // every string unit and pair of units as member key / value
 	r.Bounds["parsed_documents"] = len(seeds)
 	r.Bounds["string_units"] = len(docgen.StringUnits())
